@@ -57,17 +57,17 @@ def tree_snapshot(root):
 # workload description -> objects
 # --------------------------------------------------------------------------- #
 
-def gen_workload(rng, nmax=40, allow_cases=True, kinds=None, nmin=1):
+def gen_workload(rng, nmax=40, allow_cases=True, kinds=None, nmin=1, exotic=False):
     """A sweep description: grid, case list, or cases x sub-grid, with 1..nmax settings."""
     kinds = kinds or ["int", "float", "str", "tuple:2", "array:3", "list:2x2", "bool", "mixed"]
     while True:
         mode = rng.choice(["grid", "grid", "cases", "cases_sub"]) if allow_cases else "grid"
         w = {"mode": mode, "kind": rng.choice(kinds)}
         if mode == "grid":
-            w["combos"] = gens.gen_combos(rng, nargs=(1, 4), nvals=(1, 5), max_settings=nmax)
+            w["combos"] = gens.gen_combos(rng, nargs=(1, 4), nvals=(1, 5), max_settings=nmax, exotic=exotic)
             w["names"], w["cases"] = None, None
         else:
-            names, cs = gens.gen_cases(rng, nargs=(1, 3), ncases=(1, min(12, nmax)))
+            names, cs = gens.gen_cases(rng, nargs=(1, 3), ncases=(1, min(12, nmax)), exotic=exotic)
             w["names"], w["cases"] = names, cs
             w["combos"] = []
             if mode == "cases_sub":
@@ -181,11 +181,12 @@ def run_actor(spec, workdir, timeout=180):
     import sys
     import json
     import subprocess
-    n = len(glob.glob(os.path.join(workdir, "actor-*.json")))
-    sp = os.path.join(workdir, "actor-%d.json" % n)
+    import pickle
+    n = len(glob.glob(os.path.join(workdir, "actor-*.spec")))
+    sp = os.path.join(workdir, "actor-%d.spec" % n)
     spec = dict(spec, out=os.path.join(workdir, "actor-%d.out" % n))
-    with open(sp, "w") as f:
-        json.dump(spec, f)
+    with open(sp, "wb") as f:          # pickled, so that argument values keep their exact types (numpy scalars, tuples)
+        pickle.dump(spec, f)
     try:
         r = subprocess.run([sys.executable, "-m", "vf.actor", sp], timeout=timeout,
                            stdout=subprocess.DEVNULL, stderr=subprocess.PIPE,
